@@ -72,7 +72,7 @@ class Molecules:
                 rot = Rotation.identity()
         elif not isinstance(rot, Rotation):
             raise TypeError(f"`rot` must be a Rotation object, got {type(rot)}.")
-        elif nmol > 0 and nmol != len(rot):
+        elif (nmol > 0 or not rot.single) and nmol != len(rot):
             raise ValueError(
                 f"Length mismatch. There are {nmol} molecules but {len(rot)} "
                 "rotation were given."
